@@ -394,7 +394,7 @@ class MBTilesLevelCache(TileCacheBase):
             level = tile.coord[2]
             break
 
-        if not level:
+        if level is None:
             return True
 
         return self._get_level(level).load_tiles(tiles, with_metadata=with_metadata, dimensions=dimensions)
